@@ -22,28 +22,36 @@ import math
 import numpy as np
 from hypothesis import strategies as st
 
-from vlib.core import HarnessError, Soft, Sub, case_hash
+from vlib.core import HarnessError, Soft, Sub, case_hash, exception_site, raised_in_repo
 
 PROPERTY_ID = "C05"
 LEVEL = "exploration"
 RULE = (
     "A case of the likelihood-function sub-checks is a substitution model (every registered continuous-time model, or a model "
-    "built from generated predicates on the nucleotide, dinucleotide or codon alphabet with motif-probability model tuple / "
-    "conditional / monomer / monomers, or General / GeneralStationary), optionally rate classes (2-4 bins; gamma or free "
-    "distribution on 'rate' or on a model parameter; generated bin probabilities and shape), and 1-4 points, each = motif "
+    "built from generated predicates on the nucleotide, dinucleotide, trinucleotide, protein or codon alphabet (TimeReversible* / "
+    "NonReversible* classes, StrandSymmetric, Stationary) with motif-probability model tuple / conditional / monomer / monomers, or "
+    "General / GeneralStationary; a third of the codon models use genetic code 2, 4 or 6 (60, 62, 63 sense codons); a quarter of "
+    "the built models have the gap motif as a state (model_gaps=True, tuple motif probabilities, usually with the 'indel' predicate)), "
+    "optionally rate classes (2-4 bins; gamma or free distribution on 'rate' or on a model parameter; generated bin probabilities "
+    "and shape; for free classes generated increments of the <name>_partition in two thirds of the cases; in a third of the cases where "
+    "the model has a second parameter it is partitioned across the bins (partitioned_params) with a generated partition), and 1-4 points, each = motif "
     "probabilities (normalised positive weights; plain, one component near 2e-4, or one component near 0.97), all rate "
-    "parameters log-uniform in [1e-2, 1e2] (a third of the points: [1e-4, 1e4]; a sixth: some parameters at the declared lower bound 1e-6), an optional second parameter vector for one edge, and branch lengths s, t "
+    "parameters log-uniform in [1e-2, 1e2] (about a quarter of the points: [1e-4, 1e4]; the rest: a third of the parameters exactly at the declared lower bound 1e-6, or at the upper bound 1e6, or each parameter at 1e-6 / 1e6 / moderate), an optional second parameter vector for one edge, and branch lengths s, t "
     "in [0, 5] (0 and tiny values included). For every point Q (calibrated and not) and P for lengths 0, s, t, s+t are read "
     "for every bin under each of the expm settings either, pade, checked, eigen (eigen only on reversible models) and checked against the identities of the "
-    "property and against the harness's uniformisation exp(Qt). A case of the expm sub-check is a harness-built rate matrix (2-8 or 20 states; reversible, "
+    "property and against the harness's uniformisation exp(Qt); for models without rate classes get_lengths_as_ens() is compared with the branch length "
+    "(stationary processes) or with pi . int_0^t exp(Qs) ds . (-diag Q) computed by the harness (Van Loan block matrix + uniformisation). "
+    "A case of the freebins sub-check is a registered nucleotide model with free rate classes (2-4 bins on 'rate' or on a parameter), a generated "
+    "3-sequence alignment and 0-60 optimiser evaluations; after optimising, the bin probabilities, multipliers, Q and P reported for every bin and edge are checked "
+    "(mean one, ordered, calibration, detailed balance, P = exp(Q * length * rate), ENS = length). A case of the expm sub-check is a harness-built rate matrix (2-8 or 20 states; reversible, "
     "general, or near-defective chain/triangular structure) and a time; all exponentiator classes and the back-ends selected "
     "by ExpDefn are compared with the uniformisation reference. The discrete sub-check optimises BH/DT on a generated gap-free alignment for a few "
-    "steps and checks stochasticity of every psub. Non-trivial = unequal motif probabilities, at least one non-default "
+    "steps and checks stochasticity of every psub. Non-trivial (freebins) = the optimiser moved the classes off their defaults on non-identical sequences. Non-trivial = unequal motif probabilities, at least one non-default "
     "parameter (or bin structure) and s, t > 0 (expm: n >= 3 and t > 0; discrete: at least one optimisation step on non-identical sequences); distinct = distinct case / point encodings."
 )
 ASSUMPTIONS = [
     "motif probabilities have every component >= 2e-5 (set_motif_probs adjusts components below 1e-6); the near-degenerate modes put one component near 2e-4 or near 0.97",
-    "rate parameters are drawn from [1e-2, 1e2] (moderate) or [1e-4, 1e4] (wide), or a third of them exactly at the declared lower bound 1e-6 and the rest in [1e-2, 1e2] (lower-bound); all inside the declared bounds [1e-6, 1e6]; comparisons of P use tolerances scaled by k = max(1, ||Q t||_inf)",
+    "rate parameters are drawn from [1e-2, 1e2] (moderate) or [1e-4, 1e4] (wide), or a third of them exactly at the declared lower bound 1e-6 and the rest in [1e-2, 1e2] (lower-bound), likewise at the declared upper bound 1e6 (upper-bound), or each at 1e-6 / 1e6 / in [1e-2, 1e2] (mixed-extremes); all inside the declared bounds [1e-6, 1e6]; comparisons of P use tolerances scaled by k = max(1, ||Q t||_inf)",
     "gamma shape in [0.05, 50] (declared lower bound 0.01); bin probabilities >= 0.05 before normalisation",
     "branch lengths in [0, 5] so that s+t stays within the declared upper bound 10",
     "tolerances: Q row sums 1e-10*||Q||, calibration 1e-10, rate mean 1e-10, P row sums 1e-10*k, P entries in [-1e-12, 1+1e-10*k], P(0)=I 1e-12, semigroup 1e-9*k, P vs exp(Qt) 1e-9*k, back-ends pairwise 1e-8*k, piQ 1e-10*||Q||, piP 1e-9*k, detailed balance 1e-10*||Q|| with k = max(1, ||Q t||_inf); for the precision-tested eigen route (checked, either) on non-reversible models the P tolerances are ten times wider (1e-8*k, rows 1e-9*k, P(0)=I 1e-9)",
@@ -51,7 +59,12 @@ ASSUMPTIONS = [
     "the unchecked eigen back-end ('eigen', FastExponentiator) is compared with the reference only for time-reversible models (Q similar to a symmetric matrix, diagonalisation well conditioned); on other models nothing is claimed for it (the module documents it as limited to 'not too asymmetric' matrices). 'checked' may raise ArithmeticError/LinAlgError on any model, in which case 'either' must equal 'pade'",
     "stationarity is claimed for TimeReversible*, Empirical protein and GeneralStationary models; detailed balance for TimeReversible* and the empirical protein models (symmetric exchangeabilities)",
     "GeneralStationary may reject a parameter vector with ParameterOutOfBoundsError (documented); such points are skipped, and its parameters are drawn from 10^(+-0.3) to keep most points feasible",
-    "rate classes only through ordered_param + distribution (the unordered with_rate/partitioned_params configuration has free, un-normalised rates and is not claimed)",
+    "rate classes only through ordered_param + distribution, optionally with one further parameter in partitioned_params (WeightedPartitionDefn: 'weighted average of 1.0'); the unordered with_rate/partitioned_params configuration without ordered_param has free, un-normalised rates and is not claimed",
+    "free rate classes are moved off their default by a constant rule on the PartitionDefn behind them (set_param_rule('rate_partition' | '<par>_factor_partition' | '<par>_factor_partn_partition', value=increments summing to one, is_constant=True): these names are listed in lf.defn_for and accepted by set_param_rule; observed, not documented) and, in the freebins sub-check, by the documented route of optimising them on an alignment; set_param_rule('rate', bin=...) is refused by the library ('not settable as it is derived from rate_distrib') and is not used. Only what the class docstrings promise is asserted of the multipliers: non-negative, weighted mean one, and non-decreasing for the ordered (Monotonic/Gamma) parameter; the map from partition to multipliers is not asserted",
+    "model_gaps=True only with mprob_model='tuple' (the constructor refuses the others) and not for trinucleotide models (125 states exceed the 64 state limit) nor StrandSymmetric (which forces model_gaps=False); the supplied motif probabilities then include the gap motif",
+    "a built model's predicate set may be refused by the constructor only as linearly dependent ('Redundancy in predicates', 'equivalent to the overall rate parameter'); any other exception while constructing a registered or built model is a failure; the number of states must equal the harness's table (4/16/64/20 motifs, 61/60/62/63 sense codons for genetic codes 1/2/4/6, 25 gapped dinucleotides, +1 for the gap motif otherwise)",
+    "General.get_param_list() returns [] (its parameters are in parameter_order and settable by those names): the harness sets them by parameter_order; nothing is asserted about get_param_list",
+    "get_lengths_as_ens is compared only for models without rate classes (with classes and a non-stationary model the observer needs a bin and raises IncompleteScopeError; with a stationary one it returns the lengths) and not for the Stationary class given directed predicates (the class assumes stationarity and returns the lengths); NotImplementedError from time-reversible models with position-specific monomer probabilities is the explicit refusal in _get_motif_probs_by_node_tr; tolerance 1e-8*max(1,||Qt||) + 1e-6*t^2, the second term for the documented shortcut of VonBingIntegratingExponentiator (eigenvalues with |Re| < 1e-6 are integrated as if zero)",
     "TaylorExponentiator is compared only when ||Q t||_inf <= 8 (plain series; cancellation beyond that is inherent), at 1e-9 up to ||Q t|| = 2 where its fixed 21 terms have converged and at 1e-4 beyond (its stopping rule is numpy.allclose)",
     "discrete-time models: alignments without gaps or ambiguity codes; only stochasticity of psubs and of the motif probabilities is claimed",
     "model objects are cached per worker process (construction of codon models takes seconds); a fresh likelihood function is built for every point and expm setting",
@@ -103,7 +116,38 @@ BUILT = {
     "NRD": ("dinuc", 2, "general"),
     "TRC": ("codon", 3, "rev"),
     "NRC": ("codon", 3, "general"),
+    "SSN": ("nuc", 1, "general"),  # ns_substitution_model.StrandSymmetric (fixed predicates)
+    "TRP": ("protein", 1, "rev"),
+    "NRP": ("protein", 1, "general"),
+    "TRT": ("trinuc", 3, "rev"),
+    "NRT": ("trinuc", 3, "general"),
 }
+# number of sense codons (= states of a codon model) per genetic code id offered by the generator
+GC_SENSE = {1: 61, 2: 60, 4: 62, 6: 63}
+FAMILY_STATES = {"nuc": 4, "dinuc": 16, "trinuc": 64, "protein": 20}
+AA_PAIRS = ["A/G", "C/S", "D/E", "F/Y", "H/Y", "I/L", "I/V", "K/R", "L/M", "N/Q", "S/T", "F/W"]
+SSN_PARAMS = ["(A>G | T>C)", "(A>T | T>A)", "(C>G | G>C)", "(C>T | G>A)", "(G>T | C>A)"]
+# the constructor's documented refusals that a generated predicate set can legitimately meet (Parametric.__init__):
+# linearly dependent predicates.  The generators never produce an always-false / always-true predicate nor an
+# unbalanced predicate for a time-reversible class, so those messages (and any other exception) are failures.
+_CONSTRUCTOR_REFUSALS = (
+    "Redundancy in predicates",
+    "equivalent to the overall rate parameter",
+)
+
+
+def n_states(spec):
+    """number of states of the model described by a case, from harness tables (checked against the model when executed)"""
+    gaps = 1 if spec.get("gaps") else 0
+    if spec["kind"] == "named":
+        fam = NAMED[spec["name"]][0]
+    else:
+        fam = BUILT[spec["base"]][0]
+    if fam == "codon":
+        return GC_SENSE[spec.get("gc", 1)] + gaps
+    if fam == "dinuc":
+        return 25 if gaps else 16
+    return FAMILY_STATES[fam] + gaps
 
 _MODEL_CACHE: dict = {}
 
@@ -161,7 +205,7 @@ def length_st(draw):
 @st.composite
 def point_st(draw, npi, nmono_positions=0):
     # scalars first (see expm_cases)
-    prange = draw(st.sampled_from(["moderate", "moderate", "moderate", "wide", "wide", "lower-bound"]))
+    prange = draw(st.sampled_from(["moderate", "moderate", "moderate", "moderate", "wide", "wide", "wide", "lower-bound", "lower-bound", "upper-bound", "mixed-extremes"]))
     wide = prange != "moderate"
     lim = 4.0 if wide else 2.0
     s_, t_, u_ = draw(length_st()), draw(length_st()), draw(length_st())
@@ -173,6 +217,13 @@ def point_st(draw, npi, nmono_positions=0):
         # some parameters sit at their declared lower bound 1e-6 (where optimisers of the general models often end)
         at = draw(st.lists(st.sampled_from([True, False, False]), min_size=14, max_size=14))
         logp = [-6.0 if a else (v / 2.0) for a, v in zip(at, logp)]
+    elif prange == "upper-bound":
+        # ... or at the declared upper bound 1e6
+        at = draw(st.lists(st.sampled_from([True, False, False]), min_size=14, max_size=14))
+        logp = [6.0 if a else (v / 2.0) for a, v in zip(at, logp)]
+    elif prange == "mixed-extremes":
+        at = draw(st.lists(st.sampled_from([-6.0, 6.0, None, None]), min_size=14, max_size=14))
+        logp = [(v / 2.0) if a is None else a for a, v in zip(at, logp)]
     for k in zero_at:
         logp[k] = 0.0
     pt = {
@@ -200,17 +251,32 @@ def bins_st(draw, ordered_candidates, p_none=0.6):
     if draw(st.booleans()):
         bp = [1.0] * n
     shape = 10 ** draw(_fl(math.log10(0.05), math.log10(50.0)))
-    return {"n": n, "ordered": ordered, "dist": dist, "bprobs": bp, "shape": shape}
+    out = {"n": n, "ordered": ordered, "dist": dist, "bprobs": bp, "shape": shape}
+    # the increments of a free (monotonic) rate-class distribution: default partition or generated
+    if dist == "free" and draw(st.sampled_from([True, True, False])):
+        out["partition"] = draw(st.lists(_fl(0.02, 1.0), min_size=n, max_size=n))
+    # a second parameter partitioned across the bins without order (WeightedPartitionDefn)
+    others = [c for c in ordered_candidates if c != ordered]
+    if others and draw(st.sampled_from([True, False, False])):
+        out["extra"] = draw(st.sampled_from(others))
+        if draw(st.sampled_from([True, True, False])):
+            out["extra_partition"] = draw(st.lists(_fl(0.02, 1.0), min_size=n, max_size=n))
+    return out
 
 
 @st.composite
 def named_cases(draw, names, npoints, p_nobins=0.6):
     name = draw(st.sampled_from(names))
     fam, npi, rule, kind, ordc = NAMED[name]
+    spec = {"kind": "named", "name": name}
+    if fam == "codon" and draw(st.sampled_from([True, False, False])):
+        spec["gc"] = draw(st.sampled_from([2, 2, 4, 6]))  # non-standard genetic codes: 60, 62, 63 sense codons
+    if npi == 61:
+        npi = n_states(spec)
     bins = draw(bins_st(ordc, p_nobins))
     default_pi = fam == "protein" and draw(st.sampled_from([True, False, False, False]))
     pts = [draw(point_st(0 if default_pi else npi)) for _ in range(npoints)]
-    return {"model": {"kind": "named", "name": name}, "bins": bins, "points": pts}
+    return {"model": spec, "bins": bins, "points": pts}
 
 
 @st.composite
@@ -218,8 +284,19 @@ def built_cases(draw, bases, npoints):
     base = draw(st.sampled_from(bases))
     fam, wl, kind = BUILT[base]
     preds: list = []
-    if base in ("GEN", "GST"):
+    spec = {"kind": "built", "base": base}
+    if fam == "codon" and draw(st.sampled_from([True, False, False])):
+        spec["gc"] = draw(st.sampled_from([2, 2, 4, 6]))
+    # the gap motif as a state (needs the tuple motif-probability model; 5^3 trinucleotide states exceed the 64 state limit)
+    gaps = base not in ("SSN", "TRT", "NRT") and draw(st.sampled_from([True, False, False, False]))
+    if base in ("GEN", "GST", "SSN"):
         pass
+    elif fam == "protein":
+        k = draw(st.sampled_from(range(5)))
+        preds = sorted(draw(st.lists(st.sampled_from(AA_PAIRS), min_size=k, max_size=k, unique=True)))
+        if kind != "rev":
+            flip = draw(st.lists(st.booleans(), min_size=k, max_size=k))
+            preds = [(p[2] + ">" + p[0]) if f else (p[0] + ">" + p[2]) for p, f in zip(preds, flip)]
     elif kind == "rev":
         k = draw(st.sampled_from(range(6)))
         preds = sorted(draw(st.lists(st.sampled_from(UNDIRECTED), min_size=k, max_size=k, unique=True)))
@@ -230,30 +307,43 @@ def built_cases(draw, bases, npoints):
         preds = sorted(draw(st.lists(st.sampled_from(DIRECTED), min_size=k, max_size=k, unique=True)))
     if wl == 2 and draw(st.booleans()):
         preds = preds + [draw(st.sampled_from(["CG/", "CG>", "AT/"]))] if kind != "rev" else preds + [draw(st.sampled_from(["CG/", "AT/"]))]
-    if wl == 3 and draw(st.sampled_from([True, True, True, False])):
+    if fam == "codon" and draw(st.sampled_from([True, True, True, False])):
         preds = preds + ["omega"]
     if wl == 1:
         mprob = draw(st.sampled_from(["tuple", "conditional"])) if base in ("TRN", "STN") else "tuple"
     else:
         mprob = draw(st.sampled_from(["tuple", "conditional", "monomer", "monomers"]))
-    nwords = {1: 4, 2: 16, 3: 61}[wl]
+    if gaps:
+        spec["gaps"] = True
+        mprob = "tuple"
+        if base not in ("GEN", "GST") and draw(st.sampled_from([True, True, True, False])):
+            preds = preds + ["indel"]
+    nwords = n_states(spec)
     if mprob == "monomer":
         npi, npos = 4, 0
     elif mprob == "monomers":
         npi, npos = 0, wl
     else:
         npi, npos = nwords, 0
-    ordc = [p for p in preds if p in ("kappa", "omega")] or ([preds[0]] if preds else [])
+    # (the dinucleotide context predicates are registered under a different label than the string that builds them)
+    plain = [p for p in preds if p not in ("CG/", "CG>", "AT/")]
+    ordc = [p for p in preds if p in ("kappa", "omega", "indel")] or plain[:1]
+    if base == "SSN":
+        ordc = SSN_PARAMS[:2]
+    elif len(ordc) == 1 and len(preds) > 1:
+        # a second candidate so that one parameter can be ordered and another partitioned
+        ordc = ordc + [p for p in plain if p not in ordc][:1]
     if base in ("GEN", "GST"):
         bins = {"n": 1}
     else:
         bins = draw(bins_st(ordc, 0.75))
     pts = [draw(point_st(npi, npos)) for _ in range(npoints)]
-    return {"model": {"kind": "built", "base": base, "preds": preds, "mprob": mprob}, "bins": bins, "points": pts}
+    spec.update({"preds": preds, "mprob": mprob})
+    return {"model": spec, "bins": bins, "points": pts}
 
 
 def nuc_cases():
-    return st.one_of(named_cases(NUC_NAMED, 1), named_cases(NUC_NAMED, 1), built_cases(["TRN", "NRN", "STN", "GEN", "GST"], 1))
+    return st.one_of(named_cases(NUC_NAMED, 1), named_cases(NUC_NAMED, 1), built_cases(["TRN", "TRN", "NRN", "NRN", "STN", "STN", "GEN", "GEN", "GST", "GST", "SSN"], 1))
 
 
 def dinuc_cases():
@@ -265,14 +355,21 @@ def codon_cases():
 
 
 def protein_cases():
-    return named_cases(PROTEIN_NAMED, 2, 0.7)
+    return st.one_of(named_cases(PROTEIN_NAMED, 2, 0.7), built_cases(["TRP", "TRP", "NRP"], 2))
+
+
+def trinuc_cases():
+    return built_cases(["TRT", "TRT", "NRT"], 2)
 
 
 # --------------------------------------------------------------- model set-up
 def _model_kwargs(bins):
     if bins["n"] == 1:
         return {}
-    return {"ordered_param": bins["ordered"], "distribution": bins["dist"]}
+    kw = {"ordered_param": bins["ordered"], "distribution": bins["dist"]}
+    if bins.get("extra"):
+        kw["partitioned_params"] = [bins["extra"]]
+    return kw
 
 
 def get_sm(spec, bins):
@@ -287,6 +384,8 @@ def get_sm(spec, bins):
     if key in _MODEL_CACHE:
         return _MODEL_CACHE[key]
     if spec["kind"] == "named":
+        if spec.get("gc"):
+            kw["gc"] = spec["gc"]
         sm = cogent3.get_model(spec["name"], **kw)
         fam, npi, rule, kind, _ = NAMED[spec["name"]]
         info = {"family": fam, "rule": rule, "kind": kind, "fixed_pi": npi == 0, "label": spec["name"]}
@@ -296,7 +395,11 @@ def get_sm(spec, bins):
         preds = list(spec["preds"])
         mk = dict(kw)
         mk["mprob_model"] = spec["mprob"]
-        mk["model_gaps"] = False
+        mk["model_gaps"] = bool(spec.get("gaps"))
+        if spec.get("gaps"):
+            mk["recode_gaps"] = False
+        if spec.get("gc"):
+            mk["gc"] = spec["gc"]
         if base == "TRN":
             sm = sub.TimeReversibleNucleotide(predicates=preds, **mk)
         elif base == "NRN":
@@ -315,9 +418,26 @@ def get_sm(spec, bins):
             sm = sub.TimeReversibleCodon(predicates=preds, **mk)
         elif base == "NRC":
             sm = ns.NonReversibleCodon(predicates=preds, **mk)
+        elif base == "SSN":
+            sm = ns.StrandSymmetric(**mk)
+        elif base == "TRP":
+            sm = sub.TimeReversibleProtein(predicates=preds, **mk)
+        elif base == "NRP":
+            sm = ns.NonReversibleProtein(predicates=preds, **mk)
+        elif base == "TRT":
+            sm = sub.TimeReversibleTrinucleotide(predicates=preds, **mk)
+        elif base == "NRT":
+            sm = ns.NonReversibleTrinucleotide(predicates=preds, **mk)
         else:
             raise HarnessError(f"unknown base {base}")
         info = {"family": fam, "rule": spec["mprob"], "kind": kind, "fixed_pi": False, "label": base}
+    info["gaps"] = bool(spec.get("gaps"))
+    info["gc"] = spec.get("gc", 1)
+    # names of the rate-matrix parameters (General keeps them in parameter_order, its get_param_list() is empty)
+    info["params"] = sorted(sm.get_param_list()) or sorted(getattr(sm, "parameter_order", []))
+    info["empirical"] = isinstance(sm, sub.Empirical)
+    info["stationary_class"] = isinstance(sm, sub.Stationary)
+    info["states"] = len(sm.get_alphabet())
     _MODEL_CACHE[key] = (sm, info)
     return sm, info
 
@@ -367,6 +487,17 @@ def ref_expm(Q, t):
     return P
 
 
+def ref_ens(pi, Q, t):
+    """expected number of substitutions on a branch of length t started from pi: pi . int_0^t exp(Qs) ds . (-diag Q),
+    read off the exponential of the augmented matrix [[Q, r], [0, 0]] (r = -diag Q >= 0; Van Loan), which has
+    non-negative off-diagonals so the uniformisation series has no cancellation"""
+    n = Q.shape[0]
+    A = np.zeros((n + 1, n + 1))
+    A[:n, :n] = Q
+    A[:n, n] = -np.diag(Q)
+    return float(np.asarray(pi, float) @ ref_expm(A, t)[:n, n])
+
+
 def _norm_inf(m):
     return float(np.abs(m).sum(axis=1).max())
 
@@ -383,11 +514,25 @@ def exec_lf(case) -> Soft:
         sm, info = get_sm(spec, bins)
     except HarnessError:
         raise
-    except ValueError as e:
-        # documented constructor rejections (redundant predicates, unbalanced reversible predicates)
-        s.cls("model-rejected:" + type(e).__name__)
+    except Exception as e:  # noqa: BLE001
+        if not raised_in_repo(e):
+            raise
+        if spec["kind"] == "built" and isinstance(e, ValueError) and any(m in str(e) for m in _CONSTRUCTOR_REFUSALS):
+            # documented constructor rejections of a user's predicate set (redundant predicates, unbalanced reversible predicates)
+            s.cls("model-rejected:" + type(e).__name__)
+            return s
+        # a registered model, or a generated configuration the constructors are documented to accept, must build
+        s.fail(f"construct-model/{spec['kind']}/raises:{type(e).__name__}@{exception_site(e)}", f"{spec}: {type(e).__name__}: {e}")
         return s
     s.cls("family:" + info["family"], "model:" + info["label"], "mprob:" + info["rule"], "kind:" + info["kind"])
+    s.cls("gaps:modelled" if info["gaps"] else "gaps:no", f"gc:{info['gc']}")
+    # states = the alphabet's motifs (sense codons of the chosen genetic code for codon models) + the gap motif when modelled
+    if not s.check(info["states"] == n_states(spec), "model/state-count", f"{spec}: {info['states']} states, expected {n_states(spec)}"):
+        return s
+    if bins["n"] > 1:
+        s.cls("partition:generated" if bins.get("partition") else "partition:default")
+        if bins.get("extra"):
+            s.cls("partitioned-param:" + ("generated" if bins.get("extra_partition") else "default"))
     s.cls("bins:1" if bins["n"] == 1 else f"bins:{bins['dist']}-{'rate' if bins['ordered'] == 'rate' else 'param'}")
     s.evals = 0
     for pt in case["points"]:
@@ -429,7 +574,7 @@ def _build_lf(s, sm, info, bins, pt, expm, pi_in, words, mono):
         ok, _ = s.call(f"set_motif_probs/{info['rule']}", lf.set_motif_probs, arg, allowed=allowed)
         if not ok:
             return None
-    names = sorted(sm.get_param_list())
+    names = info["params"]
     for k, nm in enumerate(names):
         ok, _ = s.call("set_param_rule/param", lf.set_param_rule, nm, value=_pval(info, pt["logp"][k % 14]), is_constant=True, allowed=allowed)
         if not ok:
@@ -453,6 +598,18 @@ def _build_lf(s, sm, info, bins, pt, expm, pi_in, words, mono):
         if bins["dist"] == "gamma":
             pn = "rate_shape" if bins["ordered"] == "rate" else f"{bins['ordered']}_factor_shape"
             ok, _ = s.call("set_param_rule/shape", lf.set_param_rule, pn, value=float(bins["shape"]), is_constant=True, allowed=allowed)
+            if not ok:
+                return None
+        elif bins.get("partition"):
+            # free (monotonic) rate classes away from the default increments
+            pn = "rate_partition" if bins["ordered"] == "rate" else f"{bins['ordered']}_factor_partition"
+            part = np.array(bins["partition"], float)
+            ok, _ = s.call("set_param_rule/partition", lf.set_param_rule, pn, value=part / part.sum(), is_constant=True, allowed=allowed)
+            if not ok:
+                return None
+        if bins.get("extra") and bins.get("extra_partition"):
+            part = np.array(bins["extra_partition"], float)
+            ok, _ = s.call("set_param_rule/partition", lf.set_param_rule, f"{bins['extra']}_factor_partn_partition", value=part / part.sum(), is_constant=True, allowed=allowed)
             if not ok:
                 return None
     from numpy.linalg import LinAlgError
@@ -533,7 +690,7 @@ def run_point(s: Soft, sm, info, bins, pt) -> bool:
     bnames = [f"bin{i}" for i in range(bins["n"])] if bins["n"] > 1 else [None]
     lengths = {"a": pt["s"], "b": pt["t"], "c": pt["s"] + pt["t"], "z": 0.0, "d": pt["u"]}
     groups = {"a": ["a", "b", "c", "z"]}
-    if pt["het"] is not None and sm.get_param_list():
+    if pt["het"] is not None and info["params"]:
         groups["d"] = ["d"]
     else:
         groups["a"].append("d")
@@ -557,11 +714,25 @@ def run_point(s: Soft, sm, info, bins, pt) -> bool:
         tag = f"{bins['dist']}-{'rate' if pname == 'rate' else 'param'}"
         s.check(np.isfinite(vals).all() and (vals >= 0).all(), f"rates/non-negative/{tag}", f"multipliers {vals}")
         s.check(abs(float((bp * vals).sum()) - 1.0) <= 1e-10, f"rates/mean-one/{tag}", f"sum(bprob*multiplier) = {(bp * vals).sum()!r}; bprobs {bp}, multipliers {vals}")
+        if bins["dist"] == "free":
+            # MonotonicDefn: "an ordered array of floats with weighted average of 1.0"
+            s.check(bool((np.diff(vals) >= -1e-12).all()), f"rates/monotonic/{tag}", f"multipliers {vals}")
         if pname == "rate":
             rates = dict(zip(bnames, vals))
         else:
             rates = {b: 1.0 for b in bnames}
-    q_per_bin = bins["n"] > 1 and bins["ordered"] != "rate"
+        if bins.get("extra"):
+            # a parameter partitioned across the bins without order: WeightedPartitionDefn, "weighted average of 1.0"
+            ev = []
+            for b in bnames:
+                ok, r = s.call("get_param_value/factor", lf.get_param_value, f"{bins['extra']}_factor", bin=b)
+                if not ok:
+                    return
+                ev.append(float(r))
+            ev = np.array(ev)
+            s.check(np.isfinite(ev).all() and (ev >= 0).all(), "rates/non-negative/partitioned-param", f"multipliers {ev}")
+            s.check(abs(float((bp * ev).sum()) - 1.0) <= 1e-10, "rates/mean-one/partitioned-param", f"sum(bprob*multiplier) = {(bp * ev).sum()!r}; bprobs {bp}, multipliers {ev}")
+    q_per_bin = bins["n"] > 1 and (bins["ordered"] != "rate" or bool(bins.get("extra")))
 
     # ---- Q
     Qs = {}
@@ -599,6 +770,31 @@ def run_point(s: Soft, sm, info, bins, pt) -> bool:
     if bins["n"] > 1:
         tot = sum(bp[i] * rates[b] * -float((pi * np.diag(Qs[("a", b)])).sum()) for i, b in enumerate(bnames))
         s.check(abs(tot - 1.0) <= 1e-9, f"rates/expected-substitutions-per-length/{bins['dist']}", f"{info['label']}: sum_b bprob_b rate_b (-sum pi_i q_ii) = {tot!r}")
+
+    # ---- branch length = expected number of substitutions (get_lengths_as_ens; the root of the star tree has the
+    # supplied distribution, so ENS(e) = pi . int_0^t exp(Qs) ds . (-diag Q); equal to t when pi is stationary)
+    if bins["n"] == 1 and q_valid and not (info["stationary_class"] and kind == "general"):
+        # _get_motif_probs_by_node_tr raises NotImplementedError for position-specific monomer probabilities (explicit refusal)
+        ens_allowed = oob + ((NotImplementedError,) if (kind == "rev" and rule == "monomers") else ())
+        ens_tag = "monomer-probs" if (rule in ("monomer", "monomers") and not info["stationary_class"]) else "word-probs"
+        ok, ens = s.call(f"get_lengths_as_ens/{ens_tag}", lf.get_lengths_as_ens, allowed=ens_allowed)
+        if ok:
+            for g, edges in groups.items():
+                Q = Qs[(g, None)]
+                for e in edges:
+                    t = float(lengths[e])
+                    got = ens.get(e) if hasattr(ens, "get") else None
+                    if got is None or not np.isfinite(got):
+                        s.fail("ens/finite", f"{info['label']} edge {e}: {got!r}")
+                        continue
+                    ke = max(1.0, _norm_inf(Q) * t)
+                    if kind in ("rev", "stationary"):
+                        etag = "stationary-class" if info["stationary_class"] else "stationary-integrated"
+                        s.check(abs(float(got) - t) <= 1e-8 * ke + 1e-6 * t * t, f"ens/equals-length/{etag}", f"{info['label']} edge {e}: ENS {got!r}, length {t!r}")
+                    else:
+                        want = ref_ens(pi, Q, t)
+                        s.check(abs(float(got) - want) <= 1e-8 * ke + 1e-6 * t * t, "ens/equals-integral/general", f"{info['label']} edge {e} length {t!r} ||Qt|| {ke:.3g}: ENS {got!r}, pi.int exp(Qs)ds.(-diag Q) = {want!r}")
+            s.cls("ens:" + ("trivial" if info["stationary_class"] else "integrated"))
 
     # ---- uncalibrated Q: documented as Q * length (* bin rate), expm of which is the psub
     for g, edges in groups.items():
@@ -711,7 +907,7 @@ def run_point(s: Soft, sm, info, bins, pt) -> bool:
                 r = np.abs(ref_expm(_arr(qk[k]), 1.0) - _arr(pk[k])).max()
                 s.check(r <= 1e-9 * scale[(e, b)], "all-matrices/expm-of-uncalibrated-Q-is-psub", f"{info['label']} {k}: max diff {r:.3e}")
 
-    npar = len(sm.get_param_list())
+    npar = len(info["params"])
     default_params = npar > 0 and all(v == 0.0 for v in pt["logp"][:npar])  # models without parameters: vacuous
     unequal = pi_in is None and not info["fixed_pi"] or (pi_in is not None and pmode != "equal")
     return bool(unequal and (not default_params or bins["n"] > 1) and pt["s"] > 0 and pt["t"] > 0)
@@ -911,12 +1107,136 @@ def exec_discrete(case) -> Soft:
     return s
 
 
+# ------------------------------ free rate classes reached through the optimiser
+FREE_OPT = {
+    "F81": ["rate"],
+    "HKY85": ["rate", "kappa"],
+    "TN93": ["rate", "kappa_y"],
+    "GTR": ["rate", "A/G"],
+    "GN": ["rate", "A>G"],
+}
+
+
+@st.composite
+def freebins_cases(draw):
+    name = draw(st.sampled_from(sorted(FREE_OPT)))
+    ordered = draw(st.sampled_from(FREE_OPT[name]))
+    n = draw(st.sampled_from([2, 2, 3, 4]))
+    evals = draw(st.sampled_from([0, 8, 25, 60]))
+    ncol = draw(st.sampled_from(range(12, 49)))
+    seqs = [draw(st.lists(st.sampled_from("ACGT"), min_size=ncol, max_size=ncol)) for _ in range(3)]
+    for r in (1, 2):
+        keep = draw(st.lists(st.sampled_from([True, True, False]), min_size=ncol, max_size=ncol))
+        seqs[r] = [a if k else c for a, c, k in zip(seqs[0], seqs[r], keep)]
+    return {"model": name, "ordered": ordered, "n": n, "evals": evals, "seqs": ["".join(x) for x in seqs]}
+
+
+def exec_freebins(case) -> Soft:
+    """the documented way to move free rate classes off their default: optimise them on an alignment, then read the
+    state back through the public observers and apply the identities of the property to what they report"""
+    import cogent3
+
+    s = Soft("C05/freebins/")
+    name, ordered, n = case["model"], case["ordered"], case["n"]
+    s.cls("model:" + name, "ordered:" + ("rate" if ordered == "rate" else "param"), f"bins:{n}", f"evals:{case['evals']}")
+    key = json.dumps(["freebins", name, ordered])
+    if key not in _MODEL_CACHE:
+        ok, sm = s.call("get_model", cogent3.get_model, name, ordered_param=ordered, distribution="free")
+        if not ok:
+            return s
+        _MODEL_CACHE[key] = sm
+    sm = _MODEL_CACHE[key]
+    general = name == "GN"
+    tree = cogent3.make_tree("(a:0.1,b:0.2,c:0.3)")
+    ok, aln = s.call("make_aligned_seqs", cogent3.make_aligned_seqs, dict(zip("abc", case["seqs"])), moltype="dna")
+    if not ok:
+        return s
+    ok, lf = s.call("make_likelihood_function", sm.make_likelihood_function, tree, bins=n)
+    if not ok:
+        return s
+    ok, _ = s.call("set_alignment", lf.set_alignment, aln)
+    if not ok:
+        return s
+    if case["evals"]:
+        ok, _ = s.call("optimise", lambda: lf.optimise(local=True, max_evaluations=case["evals"], limit_action="ignore", show_progress=False))
+        if not ok:
+            return s
+    bnames = [f"bin{i}" for i in range(n)]
+    ok, bp = s.call("get_param_value/bprobs", lf.get_param_value, "bprobs")
+    if not ok:
+        return s
+    bp = np.array(bp, float)
+    s.check(bp.shape == (n,) and np.isfinite(bp).all() and (bp >= 0).all() and abs(bp.sum() - 1) <= 1e-10, "bprobs/distribution", f"{bp}")
+    if bp.shape != (n,):
+        return s
+    pname = "rate" if ordered == "rate" else f"{ordered}_factor"
+    vals = []
+    for b in bnames:
+        ok, r = s.call("get_param_value/multiplier", lf.get_param_value, pname, bin=b)
+        if not ok:
+            return s
+        vals.append(float(r))
+    vals = np.array(vals)
+    tag = "rate" if ordered == "rate" else "param"
+    s.check(np.isfinite(vals).all() and (vals >= 0).all(), f"rates/non-negative/{tag}", f"multipliers {vals}")
+    s.check(abs(float((bp * vals).sum()) - 1.0) <= 1e-9, f"rates/mean-one/{tag}", f"sum(bprob*multiplier) = {(bp * vals).sum()!r}; bprobs {bp}, multipliers {vals}")
+    s.check(bool((np.diff(vals) >= -1e-12).all()), f"rates/monotonic/{tag}", f"multipliers {vals}")
+    moved = bool(np.abs(vals - np.arange(1, n + 1) / ((n + 1) / 2.0)).max() > 1e-6 or np.abs(bp - 1.0 / n).max() > 1e-6)
+    s.cls("classes:moved" if moved else "classes:default")
+    ok, mp = s.call("get_motif_probs", lf.get_motif_probs)
+    if not ok:
+        return s
+    words = [str(w) for w in sm.get_alphabet()]
+    d = mp.to_dict()
+    pi = np.array([d[w] for w in words], float)
+    s.check(abs(pi.sum() - 1) <= 1e-10 and (pi >= 0).all(), "mprobs/distribution", f"{pi}")
+    rates = dict(zip(bnames, vals)) if ordered == "rate" else {b: 1.0 for b in bnames}
+    for e in "abc":
+        ok, t = s.call("get_param_value/length", lf.get_param_value, "length", edge=e)
+        if not ok:
+            continue
+        t = float(t)
+        for b in bnames:
+            ok, Q = s.call("get_rate_matrix_for_edge", lf.get_rate_matrix_for_edge, e, calibrated=True, bin=b)
+            ok2, P = s.call("get_psub_for_edge", lf.get_psub_for_edge, e, bin=b)
+            if not (ok and ok2):
+                continue
+            Q, P = _arr(Q), _arr(P)
+            if Q.shape != (4, 4) or not np.isfinite(Q).all() or P.shape != (4, 4) or not np.isfinite(P).all():
+                s.fail("Q-P/finite", f"{name} edge {e} bin {b}")
+                continue
+            nq = _norm_inf(Q)
+            off = Q - np.diag(np.diag(Q))
+            valid = np.abs(Q.sum(axis=1)).max() <= 1e-10 * max(1.0, nq) and off.min() >= 0.0
+            s.check(valid, "Q/rate-matrix", f"{name} edge {e} bin {b}: max |row sum| {np.abs(Q.sum(axis=1)).max():.3e}, min off-diagonal {off.min():.3e}")
+            s.check(abs(-float((pi * np.diag(Q)).sum()) - 1.0) <= 1e-9, "Q/calibration", f"{name} edge {e} bin {b}: -sum(pi_i q_ii) = {-float((pi * np.diag(Q)).sum())!r}")
+            if not general:
+                F = pi[:, None] * Q
+                s.check(np.abs(F - F.T).max() <= 1e-9 * max(1.0, nq), "reversible/detailed-balance", f"{name} edge {e} bin {b}: {np.abs(F - F.T).max():.3e}")
+            k = max(1.0, nq * t * rates[b])
+            s.check(np.abs(P.sum(axis=1) - 1).max() <= 1e-9 * k and P.min() >= -1e-12, "P/row-stochastic", f"{name} edge {e} bin {b}: max |row sum - 1| {np.abs(P.sum(axis=1) - 1).max():.3e}, min {P.min():.3e}")
+            if valid:
+                r = np.abs(P - ref_expm(Q, t * rates[b])).max()
+                s.check(r <= (1e-8 if general else 1e-9) * k, "P/equals-expm-Q-length-rate", f"{name} edge {e} bin {b} length {t!r} rate {rates[b]!r}: max diff {r:.3e}")
+    if not general:
+        ok, ens = s.call("get_lengths_as_ens", lf.get_lengths_as_ens)
+        if ok:
+            for e in "abc":
+                ok, t = s.call("get_param_value/length", lf.get_param_value, "length", edge=e)
+                if ok:
+                    s.check(abs(float(ens[e]) - float(t)) <= 1e-9 * max(1.0, float(t)), "ens/equals-length", f"{name} edge {e}: ENS {ens[e]!r} length {t!r}")
+    s.nontrivial = moved and len(set(case["seqs"])) > 1
+    return s
+
+
 SUBS = [
     Sub("nucleotide", exec_lf, strategy=nuc_cases(), quick=1440, thorough=64_000, shards_quick=16),
     Sub("dinucleotide", exec_lf, strategy=dinuc_cases(), quick=192, thorough=8_000, shards_quick=16),
     Sub("codon", exec_lf, strategy=codon_cases(), quick=64, thorough=3_200, shards_quick=16, weight=30.0),
-    Sub("protein", exec_lf, strategy=protein_cases(), quick=64, thorough=3_200, shards_quick=8),
+    Sub("protein", exec_lf, strategy=protein_cases(), quick=96, thorough=4_800, shards_quick=8),
+    Sub("trinucleotide", exec_lf, strategy=trinuc_cases(), quick=32, thorough=1_600, shards_quick=16, weight=20.0),
     Sub("expm", exec_expm, strategy=expm_cases(), quick=3200, thorough=96_000, shards_quick=16),
+    Sub("freebins", exec_freebins, strategy=freebins_cases(), quick=160, thorough=6_000, shards_quick=8),
     Sub("discrete", exec_discrete, strategy=discrete_cases(), quick=240, thorough=8_000, shards_quick=8),
 ]
 
@@ -924,7 +1244,7 @@ KNOWN_PREDICATES = {}
 
 META = {
     "technique": "Hypothesis-generated models, parameter vectors, motif probabilities, rate classes and branch lengths; algebraic identities on the reported Q and P with harness-derived word distributions; differential against a harness-written uniformisation exp(Qt) and between the exponentiation back-ends; direct differential test of the exponentiator classes on harness-built (incl. near-defective) rate matrices",
-    "level_text": "Every registered continuous-time model and generated predicate-built nucleotide, dinucleotide and codon models (each motif-probability model) are evaluated at generated parameter points; for each point the calibrated and uncalibrated rate matrices and the transition matrices for lengths 0, s, t, s+t in every rate class and under each expm setting are checked for zero row sums, non-negative off-diagonals, unit expected rate at the model's word distribution, unit mean of the rate-class multipliers, row-stochasticity, P(0)=I, P(s)P(t)=P(s+t), equality with the harness's exp(Qt), pairwise agreement of the back-ends, stationarity and detailed balance where the model class promises them.",
-    "level_note": "Trusts about 90 lines of harness code (uniformisation exp(Qt), word distributions). The unchecked eigen back-end is compared with the reference only on reversible models; parameters are explored in [1e-4, 1e4] plus the lower bound 1e-6, not up to the declared upper bound 1e6.",
+    "level_text": "Every registered continuous-time model and generated predicate-built nucleotide, dinucleotide, trinucleotide, protein and codon models (each motif-probability model; non-standard genetic codes; the gap motif as a state) are evaluated at generated parameter points; for each point the calibrated and uncalibrated rate matrices and the transition matrices for lengths 0, s, t, s+t in every rate class and under each expm setting are checked for zero row sums, non-negative off-diagonals, unit expected rate at the model's word distribution, unit mean of the rate-class multipliers, row-stochasticity, P(0)=I, P(s)P(t)=P(s+t), equality with the harness's exp(Qt), pairwise agreement of the back-ends, stationarity and detailed balance where the model class promises them.",
+    "level_note": "Trusts about 100 lines of harness code (uniformisation exp(Qt), the ENS integral, word distributions). The unchecked eigen back-end is compared with the reference only on reversible models; parameters are explored in [1e-4, 1e4] plus the declared bounds 1e-6 and 1e6. Free rate classes are set through the partition behind them or by a short optimisation, the multipliers are only checked for what the class docstrings promise. ENS is not compared for models with rate classes.",
     "design_ref": "DESIGN.md section 1, C05",
 }
